@@ -110,12 +110,14 @@ type zvRound struct {
 	RemoteSkipped int      `json:"remote_skipped,omitempty"`
 	Panic         string   `json:"panic,omitempty"`
 	Applied       int      `json:"fsm_requests"`
+	AppliedDel    int      `json:"fsm_delete_requests"`
 }
 
 type zvType struct {
 	name      string
-	table     string   // memdb table holding the replicated objects
-	indexKeys []string // rows of the index table a write to this type legitimately moves
+	table     string               // memdb table holding the replicated objects
+	rowSkips  map[string][]string  // tables that follow the replicated one -> marker of the rows that legitimately move
+	cleanup   func(s *state.Store) // removes every object a case may have put into the replicated table
 	setup     func(s *state.Store, c *zvCase)
 	round     func(r *fsmkit.Replica, c *zvCase) zvRound
 	replSet   func(s *state.Store) map[string]string // replicated set: id -> content rendering (incl. hash, excl. raft indexes)
@@ -199,6 +201,7 @@ func zvApplyACL(r *fsmkit.Replica, tr aclTypeReplicator, res itemDiffResults, rd
 			t, req := mkDel(batch)
 			idx++
 			rd.Applied++
+			rd.AppliedDel++
 			if err, ok := r.Apply(idx, t, req).(error); ok {
 				rd.Errs = append(rd.Errs, "delete: "+err.Error())
 				rd.ErrOps = append(rd.ErrOps, "delete")
@@ -265,8 +268,61 @@ func zvTokRender(t *structs.ACLToken) string {
 	return "hash=" + zvHex(t.Hash) + " " + dump.Render(&c)
 }
 
+// zvTokenRound is one replicateACLType round of the token replicator against the secondary r, the primary
+// holding the global tokens `remote`.
+func zvTokenRound(r *fsmkit.Replica, remote []*structs.ACLToken, last uint64, shuffle bool, aux uint64, localEmpty, remoteEmpty int) (rd zvRound) {
+	// FetchLocal
+	_, local, err := r.State().ACLTokenList(nil, false, true, "", "", "", nil, structs.ReplicationEnterpriseMeta())
+	zvMust(err)
+	// FetchRemote: ACL.TokenList of the primary = stubs of its global tokens in store order
+	var stubs structs.ACLTokenListStubs
+	byID := map[string]*structs.ACLToken{}
+	for _, t := range remote {
+		byID[t.AccessorID] = t
+		stubs = append(stubs, t.Stub())
+	}
+	for j := 0; j < remoteEmpty; j++ {
+		stubs = append(stubs, &structs.ACLTokenListStub{SecretID: fmt.Sprintf("zv-legacy-remote-%d", j), Description: "unmigrated", Hash: []byte{byte(j), 1}, CreateIndex: 1, ModifyIndex: zvIdxVals[j%3]})
+	}
+	for j := 0; j < localEmpty; j++ {
+		local = append(local, &structs.ACLToken{SecretID: fmt.Sprintf("zv-legacy-local-%d", j), Description: "unmigrated", Hash: []byte{byte(j), 2}, RaftIndex: structs.RaftIndex{CreateIndex: 1, ModifyIndex: 1}})
+	}
+	if shuffle {
+		rng := core.NewRand(aux)
+		zvShuffle(local, rng)
+		zvShuffle(stubs, rng)
+	}
+	tr := &aclTokenReplicator{local: local, remote: stubs}
+	res, pan := zvDiff(tr, last)
+	rd.Deletes, rd.Upserts, rd.LocalSkipped, rd.RemoteSkipped, rd.Panic = res.LocalDeletes, res.LocalUpserts, res.LocalSkipped, res.RemoteSkipped, pan
+	if pan != "" {
+		return
+	}
+	// FetchUpdated: ACL.TokenBatchRead returns the primary's tokens with these accessors (unknown ids are just absent)
+	for _, id := range res.LocalUpserts {
+		if t, ok := byID[id]; ok {
+			tr.updated = append(tr.updated, t)
+		}
+	}
+	if _, _, err := tr.ensureRemoteConsistent(res.LocalUpserts); err != nil {
+		rd.Errs, rd.ErrOps = append(rd.Errs, "ensureRemoteConsistent: "+err.Error()), append(rd.ErrOps, "consistency-check")
+		return
+	}
+	zvApplyACL(r, tr, res, &rd,
+		func(batch []string) (structs.MessageType, any) {
+			return structs.ACLTokenDeleteRequestType, &structs.ACLTokenBatchDeleteRequest{TokenIDs: batch}
+		},
+		func(start, end int) (structs.MessageType, any) {
+			return structs.ACLTokenSetRequestType, &structs.ACLTokenBatchSetRequest{Tokens: tr.updated[start:end], CAS: false, AllowMissingLinks: true, FromReplication: true}
+		})
+	return
+}
+
 var zvTokenType = &zvType{
-	name: "token", table: "acl-tokens", indexKeys: []string{"acl-tokens"},
+	name: "token", table: "acl-tokens", rowSkips: map[string][]string{"index": {`Key:"acl-tokens"`}},
+	cleanup: func(s *state.Store) {
+		zvMust(s.ACLTokenBatchDelete(90, append(append([]string{}, zvTokIDs[:]...), zvLocalTokIDs[:]...)))
+	},
 	setup: func(s *state.Store, c *zvCase) {
 		for _, idx := range zvIdxVals {
 			var batch structs.ACLTokens
@@ -287,55 +343,14 @@ var zvTokenType = &zvType{
 			}
 		}
 	},
-	round: func(r *fsmkit.Replica, c *zvCase) (rd zvRound) {
-		// FetchLocal
-		_, local, err := r.State().ACLTokenList(nil, false, true, "", "", "", nil, structs.ReplicationEnterpriseMeta())
-		zvMust(err)
-		// FetchRemote: ACL.TokenList of the primary = stubs of its global tokens in store order
-		var stubs structs.ACLTokenListStubs
-		byID := map[string]*structs.ACLToken{}
+	round: func(r *fsmkit.Replica, c *zvCase) zvRound {
+		var remote []*structs.ACLToken
 		for k := 0; k < 4; k++ {
 			if c.Remote[k] != 0 {
-				t := zvTok(k, c.rContent(k), c.rIndex(k))
-				byID[t.AccessorID] = t
-				stubs = append(stubs, t.Stub())
+				remote = append(remote, zvTok(k, c.rContent(k), c.rIndex(k)))
 			}
 		}
-		for j := 0; j < c.RemoteEmpty; j++ {
-			stubs = append(stubs, &structs.ACLTokenListStub{SecretID: fmt.Sprintf("zv-legacy-remote-%d", j), Description: "unmigrated", Hash: []byte{byte(j), 1}, CreateIndex: 1, ModifyIndex: zvIdxVals[j%3]})
-		}
-		for j := 0; j < c.LocalEmpty; j++ {
-			local = append(local, &structs.ACLToken{SecretID: fmt.Sprintf("zv-legacy-local-%d", j), Description: "unmigrated", Hash: []byte{byte(j), 2}, RaftIndex: structs.RaftIndex{CreateIndex: 1, ModifyIndex: 1}})
-		}
-		if c.Shuffle {
-			rng := core.NewRand(c.Aux)
-			zvShuffle(local, rng)
-			zvShuffle(stubs, rng)
-		}
-		tr := &aclTokenReplicator{local: local, remote: stubs}
-		res, pan := zvDiff(tr, c.Last)
-		rd.Deletes, rd.Upserts, rd.LocalSkipped, rd.RemoteSkipped, rd.Panic = res.LocalDeletes, res.LocalUpserts, res.LocalSkipped, res.RemoteSkipped, pan
-		if pan != "" {
-			return
-		}
-		// FetchUpdated: ACL.TokenBatchRead returns the primary's tokens with these accessors (unknown ids are just absent)
-		for _, id := range res.LocalUpserts {
-			if t, ok := byID[id]; ok {
-				tr.updated = append(tr.updated, t)
-			}
-		}
-		if _, _, err := tr.ensureRemoteConsistent(res.LocalUpserts); err != nil {
-			rd.Errs, rd.ErrOps = append(rd.Errs, "ensureRemoteConsistent: "+err.Error()), append(rd.ErrOps, "consistency-check")
-			return
-		}
-		zvApplyACL(r, tr, res, &rd,
-			func(batch []string) (structs.MessageType, any) {
-				return structs.ACLTokenDeleteRequestType, &structs.ACLTokenBatchDeleteRequest{TokenIDs: batch}
-			},
-			func(start, end int) (structs.MessageType, any) {
-				return structs.ACLTokenSetRequestType, &structs.ACLTokenBatchSetRequest{Tokens: tr.updated[start:end], CAS: false, AllowMissingLinks: true, FromReplication: true}
-			})
-		return
+		return zvTokenRound(r, remote, c.Last, c.Shuffle, c.Aux, c.LocalEmpty, c.RemoteEmpty)
 	},
 	replSet: func(s *state.Store) map[string]string {
 		_, l, err := s.ACLTokenList(nil, false, true, "", "", "", nil, structs.ReplicationEnterpriseMeta())
@@ -398,8 +413,49 @@ func zvPolRender(p *structs.ACLPolicy) string {
 	return "hash=" + zvHex(p.Hash) + " " + dump.Render(&c)
 }
 
+// zvPolicyRound is one replicateACLType round of the policy replicator.
+func zvPolicyRound(r *fsmkit.Replica, remote []*structs.ACLPolicy, last uint64, shuffle bool, aux uint64) (rd zvRound) {
+	_, local, err := r.State().ACLPolicyList(nil, structs.ReplicationEnterpriseMeta())
+	zvMust(err)
+	var stubs structs.ACLPolicyListStubs // ACL.PolicyList
+	byID := map[string]*structs.ACLPolicy{}
+	for _, p := range remote {
+		byID[p.ID] = p
+		stubs = append(stubs, p.Stub())
+	}
+	if shuffle {
+		rng := core.NewRand(aux)
+		zvShuffle(local, rng)
+		zvShuffle(stubs, rng)
+	}
+	tr := &aclPolicyReplicator{local: local, remote: stubs}
+	res, pan := zvDiff(tr, last)
+	rd.Deletes, rd.Upserts, rd.LocalSkipped, rd.RemoteSkipped, rd.Panic = res.LocalDeletes, res.LocalUpserts, res.LocalSkipped, res.RemoteSkipped, pan
+	if pan != "" {
+		return
+	}
+	for _, id := range res.LocalUpserts { // ACL.PolicyBatchRead
+		if p, ok := byID[id]; ok {
+			tr.updated = append(tr.updated, p)
+		}
+	}
+	if _, _, err := tr.ensureRemoteConsistent(res.LocalUpserts); err != nil {
+		rd.Errs, rd.ErrOps = append(rd.Errs, "ensureRemoteConsistent: "+err.Error()), append(rd.ErrOps, "consistency-check")
+		return
+	}
+	zvApplyACL(r, tr, res, &rd,
+		func(batch []string) (structs.MessageType, any) {
+			return structs.ACLPolicyDeleteRequestType, &structs.ACLPolicyBatchDeleteRequest{PolicyIDs: batch}
+		},
+		func(start, end int) (structs.MessageType, any) {
+			return structs.ACLPolicySetRequestType, &structs.ACLPolicyBatchSetRequest{Policies: tr.updated[start:end]}
+		})
+	return
+}
+
 var zvPolicyType = &zvType{
-	name: "policy", table: "acl-policies", indexKeys: []string{"acl-policies"},
+	name: "policy", table: "acl-policies", rowSkips: map[string][]string{"index": {`Key:"acl-policies"`}},
+	cleanup: func(s *state.Store) { zvMust(s.ACLPolicyBatchDelete(90, zvPolIDs[:])) },
 	setup: func(s *state.Store, c *zvCase) {
 		for _, idx := range zvIdxVals {
 			var batch structs.ACLPolicies
@@ -413,46 +469,14 @@ var zvPolicyType = &zvType{
 			}
 		}
 	},
-	round: func(r *fsmkit.Replica, c *zvCase) (rd zvRound) {
-		_, local, err := r.State().ACLPolicyList(nil, structs.ReplicationEnterpriseMeta())
-		zvMust(err)
-		var stubs structs.ACLPolicyListStubs
-		byID := map[string]*structs.ACLPolicy{}
+	round: func(r *fsmkit.Replica, c *zvCase) zvRound {
+		var remote []*structs.ACLPolicy
 		for k := 0; k < 4; k++ {
 			if c.Remote[k] != 0 {
-				p := zvPol(k, c.rContent(k), c.rIndex(k))
-				byID[p.ID] = p
-				stubs = append(stubs, p.Stub())
+				remote = append(remote, zvPol(k, c.rContent(k), c.rIndex(k)))
 			}
 		}
-		if c.Shuffle {
-			rng := core.NewRand(c.Aux)
-			zvShuffle(local, rng)
-			zvShuffle(stubs, rng)
-		}
-		tr := &aclPolicyReplicator{local: local, remote: stubs}
-		res, pan := zvDiff(tr, c.Last)
-		rd.Deletes, rd.Upserts, rd.LocalSkipped, rd.RemoteSkipped, rd.Panic = res.LocalDeletes, res.LocalUpserts, res.LocalSkipped, res.RemoteSkipped, pan
-		if pan != "" {
-			return
-		}
-		for _, id := range res.LocalUpserts { // ACL.PolicyBatchRead
-			if p, ok := byID[id]; ok {
-				tr.updated = append(tr.updated, p)
-			}
-		}
-		if _, _, err := tr.ensureRemoteConsistent(res.LocalUpserts); err != nil {
-			rd.Errs, rd.ErrOps = append(rd.Errs, "ensureRemoteConsistent: "+err.Error()), append(rd.ErrOps, "consistency-check")
-			return
-		}
-		zvApplyACL(r, tr, res, &rd,
-			func(batch []string) (structs.MessageType, any) {
-				return structs.ACLPolicyDeleteRequestType, &structs.ACLPolicyBatchDeleteRequest{PolicyIDs: batch}
-			},
-			func(start, end int) (structs.MessageType, any) {
-				return structs.ACLPolicySetRequestType, &structs.ACLPolicyBatchSetRequest{Policies: tr.updated[start:end]}
-			})
-		return
+		return zvPolicyRound(r, remote, c.Last, c.Shuffle, c.Aux)
 	},
 	replSet: func(s *state.Store) map[string]string {
 		_, l, err := s.ACLPolicyList(nil, structs.ReplicationEnterpriseMeta())
@@ -507,8 +531,45 @@ func zvRoleRender(ro *structs.ACLRole) string {
 	return "hash=" + zvHex(ro.Hash) + " " + dump.Render(&c)
 }
 
+// zvRoleRound is one replicateACLType round of the role replicator (ACL.RoleList returns full roles).
+func zvRoleRound(r *fsmkit.Replica, remote structs.ACLRoles, last uint64, shuffle bool, aux uint64) (rd zvRound) {
+	_, local, err := r.State().ACLRoleList(nil, "", structs.ReplicationEnterpriseMeta())
+	zvMust(err)
+	if shuffle {
+		rng := core.NewRand(aux)
+		zvShuffle(local, rng)
+		zvShuffle(remote, rng)
+	}
+	tr := &aclRoleReplicator{local: local, remote: remote}
+	res, pan := zvDiff(tr, last)
+	rd.Deletes, rd.Upserts, rd.LocalSkipped, rd.RemoteSkipped, rd.Panic = res.LocalDeletes, res.LocalUpserts, res.LocalSkipped, res.RemoteSkipped, pan
+	if pan != "" {
+		return
+	}
+	if len(res.LocalUpserts) > 0 {
+		// the production FetchUpdated of roles needs no server: it re-uses the remote list
+		if _, err := tr.FetchUpdated(nil, res.LocalUpserts); err != nil {
+			rd.Errs, rd.ErrOps = append(rd.Errs, "FetchUpdated: "+err.Error()), append(rd.ErrOps, "fetch-updated")
+			return
+		}
+		if _, _, err := tr.ensureRemoteConsistent(res.LocalUpserts); err != nil {
+			rd.Errs, rd.ErrOps = append(rd.Errs, "ensureRemoteConsistent: "+err.Error()), append(rd.ErrOps, "consistency-check")
+			return
+		}
+	}
+	zvApplyACL(r, tr, res, &rd,
+		func(batch []string) (structs.MessageType, any) {
+			return structs.ACLRoleDeleteRequestType, &structs.ACLRoleBatchDeleteRequest{RoleIDs: batch}
+		},
+		func(start, end int) (structs.MessageType, any) {
+			return structs.ACLRoleSetRequestType, &structs.ACLRoleBatchSetRequest{Roles: tr.updated[start:end], AllowMissingLinks: true}
+		})
+	return
+}
+
 var zvRoleType = &zvType{
-	name: "role", table: "acl-roles", indexKeys: []string{"acl-roles"},
+	name: "role", table: "acl-roles", rowSkips: map[string][]string{"index": {`Key:"acl-roles"`}},
+	cleanup: func(s *state.Store) { zvMust(s.ACLRoleBatchDelete(90, zvRoleIDs[:])) },
 	setup: func(s *state.Store, c *zvCase) {
 		for _, idx := range zvIdxVals {
 			var batch structs.ACLRoles
@@ -522,45 +583,14 @@ var zvRoleType = &zvType{
 			}
 		}
 	},
-	round: func(r *fsmkit.Replica, c *zvCase) (rd zvRound) {
-		_, local, err := r.State().ACLRoleList(nil, "", structs.ReplicationEnterpriseMeta())
-		zvMust(err)
-		var remote structs.ACLRoles // ACL.RoleList returns full roles
+	round: func(r *fsmkit.Replica, c *zvCase) zvRound {
+		var remote structs.ACLRoles
 		for k := 0; k < 4; k++ {
 			if c.Remote[k] != 0 {
 				remote = append(remote, zvRole(k, c.rContent(k), c.rIndex(k)))
 			}
 		}
-		if c.Shuffle {
-			rng := core.NewRand(c.Aux)
-			zvShuffle(local, rng)
-			zvShuffle(remote, rng)
-		}
-		tr := &aclRoleReplicator{local: local, remote: remote}
-		res, pan := zvDiff(tr, c.Last)
-		rd.Deletes, rd.Upserts, rd.LocalSkipped, rd.RemoteSkipped, rd.Panic = res.LocalDeletes, res.LocalUpserts, res.LocalSkipped, res.RemoteSkipped, pan
-		if pan != "" {
-			return
-		}
-		if len(res.LocalUpserts) > 0 {
-			// the production FetchUpdated of roles needs no server: it re-uses the remote list
-			if _, err := tr.FetchUpdated(nil, res.LocalUpserts); err != nil {
-				rd.Errs, rd.ErrOps = append(rd.Errs, "FetchUpdated: "+err.Error()), append(rd.ErrOps, "fetch-updated")
-				return
-			}
-			if _, _, err := tr.ensureRemoteConsistent(res.LocalUpserts); err != nil {
-				rd.Errs, rd.ErrOps = append(rd.Errs, "ensureRemoteConsistent: "+err.Error()), append(rd.ErrOps, "consistency-check")
-				return
-			}
-		}
-		zvApplyACL(r, tr, res, &rd,
-			func(batch []string) (structs.MessageType, any) {
-				return structs.ACLRoleDeleteRequestType, &structs.ACLRoleBatchDeleteRequest{RoleIDs: batch}
-			},
-			func(start, end int) (structs.MessageType, any) {
-				return structs.ACLRoleSetRequestType, &structs.ACLRoleBatchSetRequest{Roles: tr.updated[start:end], AllowMissingLinks: true}
-			})
-		return
+		return zvRoleRound(r, remote, c.Last, c.Shuffle, c.Aux)
 	},
 	replSet: func(s *state.Store) map[string]string {
 		_, l, err := s.ACLRoleList(nil, "", structs.ReplicationEnterpriseMeta())
@@ -645,6 +675,9 @@ func zvApplyConfig(r *fsmkit.Replica, idx *uint64, configs []structs.ConfigEntry
 		req := structs.ConfigEntryRequest{Op: op, Datacenter: "dc2", Entry: entry}
 		*idx++
 		rd.Applied++
+		if op == structs.ConfigEntryDelete {
+			rd.AppliedDel++
+		}
 		if err, ok := r.Apply(*idx, structs.ConfigEntryRequestType, &req).(error); ok {
 			rd.Errs = append(rd.Errs, fmt.Sprintf("%s %s: %v", op, zvCfgKey(entry), err))
 			rd.ErrOps = append(rd.ErrOps, string(op))
@@ -704,7 +737,18 @@ func zvCfgSet(s *state.Store, exported bool) map[string]string {
 }
 
 var zvConfigType = &zvType{
-	name: "config", table: "config-entries", indexKeys: []string{"config-entries"},
+	name: "config", table: "config-entries",
+	// the usage table counts config entries per kind: its config-entries-* rows are derived from the replicated table
+	rowSkips: map[string][]string{"index": {`Key:"config-entries"`, `Key:"usage"`}, "usage": {`ID:"config-entries-`}},
+	cleanup: func(s *state.Store) {
+		_, l, err := s.ConfigEntries(nil, structs.ReplicationEnterpriseMeta())
+		zvMust(err)
+		for _, e := range l {
+			if e.GetName() != "zvsentinel" {
+				zvMust(s.DeleteConfigEntry(90, e.GetKind(), e.GetName(), e.GetEnterpriseMeta()))
+			}
+		}
+	},
 	setup: func(s *state.Store, c *zvCase) {
 		for _, idx := range zvIdxVals {
 			for k := 0; k < 4; k++ {
@@ -788,35 +832,151 @@ func zvMapDiff(got, want map[string]string) (class, detail string) {
 	return "", ""
 }
 
-func zvIndexRows(d *dump.Dump, skipKeys []string) []string {
-	var out []string
-rows:
-	for _, row := range d.Tables["index"] {
-		for _, k := range skipKeys {
-			if strings.Contains(row, fmt.Sprintf("Key:%q", k)) {
-				continue rows
-			}
-		}
-		out = append(out, row)
+// zvForeignDiff compares everything outside the replicated table: all other tables row by row, and of the
+// tables that legitimately follow the replicated one (index counters, usage counters) the rows that do not.
+func zvForeignDiff(ty *zvType, a, b *dump.Dump) (table, detail string) {
+	if diffs := dump.Compare(a, b, 3, func(t string) bool { _, part := ty.rowSkips[t]; return t == ty.table || part }); len(diffs) > 0 {
+		return diffs[0].Table, fmt.Sprintf("unrelated table %s changed: %q -> %q", diffs[0].Table, diffs[0].A, diffs[0].B)
 	}
-	return out
+	for t, skips := range ty.rowSkips {
+		filter := func(d *dump.Dump) []string {
+			var out []string
+		rows:
+			for _, row := range d.Tables[t] {
+				for _, k := range skips {
+					if strings.Contains(row, k) {
+						continue rows
+					}
+				}
+				out = append(out, row)
+			}
+			return out
+		}
+		if x, y := filter(a), filter(b); strings.Join(x, "\n") != strings.Join(y, "\n") {
+			return t, fmt.Sprintf("rows of table %s that belong to unrelated data changed: %v -> %v", t, x, y)
+		}
+	}
+	return "", ""
 }
 
 type zvOutcome struct {
-	Case        *zvCase           `json:"case"`
+	Case        any               `json:"case"`
 	Round       zvRound           `json:"round"`
 	LocalBefore map[string]string `json:"secondary_before"`
 	Primary     map[string]string `json:"primary"`
 	After       map[string]string `json:"secondary_after"`
 }
 
-// zvJudge runs one case against a fresh secondary and reports violations under site `site`.
-func zvJudge(run *core.Run, ty *zvType, site string, c *zvCase, want map[string]string, localWant map[string]string,
+// zvEnv is a secondary (real FSM + store) holding only the sentinel rows. It is re-used for a bounded
+// number of cases: after a case without findings the replicated objects are removed again and the next
+// case verifies that everything outside the replicated table still equals the baseline dump.
+type zvEnv struct {
+	r    *fsmkit.Replica
+	base *dump.Dump
+	uses int
+}
+
+type zvPool map[string]*zvEnv
+
+const zvMaxUses = 64
+
+func (p zvPool) get(ty *zvType) *zvEnv {
+	if p != nil {
+		if e := p[ty.name]; e != nil {
+			if e.uses < zvMaxUses {
+				e.uses++
+				return e
+			}
+			e.r.Close()
+			delete(p, ty.name)
+		}
+	}
+	e := &zvEnv{r: fsmkit.New(fsmkit.Opts{}), uses: 1}
+	zvSentinels(e.r.State(), ty.name)
+	e.base = dump.Of(e.r.State())
+	if p != nil {
+		p[ty.name] = e
+	}
+	return e
+}
+
+func (p zvPool) drop(ty *zvType, e *zvEnv) {
+	e.r.Close()
+	if p != nil && p[ty.name] == e {
+		delete(p, ty.name)
+	}
+}
+
+func (p zvPool) closeAll() {
+	for k, e := range p {
+		e.r.Close()
+		delete(p, k)
+	}
+}
+
+// zvSink collects violations from the parallel workers and hands them to the run in a fixed order with the
+// witness of the smallest case position, so that keys, counts AND the recorded witness do not depend on scheduling.
+type zvSink struct {
+	mu sync.Mutex
+	m  map[string]*zvFinding
+}
+
+type zvFinding struct {
+	key, what string
+	wit       any
+	order     int64
+	count     int
+}
+
+func (k *zvSink) add(key, what string, wit any, order int64) {
+	k.mu.Lock()
+	defer k.mu.Unlock()
+	if k.m == nil {
+		k.m = map[string]*zvFinding{}
+	}
+	f := k.m[key]
+	if f == nil {
+		k.m[key] = &zvFinding{key: key, what: what, wit: wit, order: order, count: 1}
+		return
+	}
+	f.count++
+	if order < f.order {
+		f.what, f.wit, f.order = what, wit, order
+	}
+}
+
+func (k *zvSink) n() int {
+	k.mu.Lock()
+	defer k.mu.Unlock()
+	return len(k.m)
+}
+
+func (k *zvSink) flush(run *core.Run) {
+	k.mu.Lock()
+	defer k.mu.Unlock()
+	var keys []string
+	for key := range k.m {
+		keys = append(keys, key)
+	}
+	sort.Strings(keys)
+	for _, key := range keys {
+		f := k.m[key]
+		for i := 0; i < f.count; i++ {
+			run.Violation(f.key, f.what, f.wit)
+		}
+	}
+	k.m = nil
+}
+
+// zvJudge runs one case against a secondary at its baseline and reports violations under site `site`.
+func zvJudge(sink *zvSink, order int64, pool zvPool, ty *zvType, site string, c any, cdesc string, want map[string]string, localWant map[string]string,
 	setup func(s *state.Store), round func(r *fsmkit.Replica) zvRound) (rd zvRound, equalBefore bool) {
-	r := fsmkit.New(fsmkit.Opts{})
-	defer r.Close()
+	env := pool.get(ty)
+	r := env.r
 	s := r.State()
-	zvSentinels(s, ty.name)
+	if a, b := ty.replSet(s), ty.localOnly(s); len(a)+len(b) != 0 {
+		panic(fmt.Sprintf("zv harness: secondary not clean before the case: %v %v", a, b))
+	}
 	setup(s)
 	replBefore := ty.replSet(s)
 	if localWant != nil {
@@ -825,61 +985,73 @@ func zvJudge(run *core.Run, ty *zvType, site string, c *zvCase, want map[string]
 		}
 	}
 	lonlyBefore := ty.localOnly(s)
-	before := dump.Of(s)
+	// Everything outside the replicated table is compared with the baseline dump taken when the secondary was
+	// built. That the case set-up itself leaves those tables alone is re-verified on the first use of every
+	// secondary (i.e. at least every zvMaxUses cases) and whenever the pool is bypassed.
+	if env.uses == 1 {
+		if t, d := zvForeignDiff(ty, env.base, dump.Of(s)); t != "" {
+			panic("zv harness: the secondary is not at its baseline before the round: " + d)
+		}
+	}
 	equalBefore = func() bool { cl, _ := zvMapDiff(replBefore, want); return cl == "" }()
 
 	rd = round(r)
 
 	after := dump.Of(s)
 	replAfter := ty.replSet(s)
-	out := func() any {
-		return zvOutcome{Case: c, Round: rd, LocalBefore: replBefore, Primary: want, After: replAfter}
-	}
-	desc := func() string {
-		return fmt.Sprintf("%s case n=%d local=%v remote=%v lastRemoteIndex=%d shuffled=%v: deletes=%v upserts=%v", ty.name, c.N, c.Local, c.Remote, c.Last, c.Shuffle, rd.Deletes, rd.Upserts)
-	}
+	dirty := false
 	pre := "C19:" + site + ":"
+	viol := func(key, what string) {
+		dirty = true
+		sink.add(pre+key, fmt.Sprintf("%s %s: diff deletes=%q upserts=%q: %s", ty.name, cdesc, rd.Deletes, rd.Upserts, what),
+			zvOutcome{Case: c, Round: rd, LocalBefore: replBefore, Primary: want, After: replAfter}, order)
+	}
+	defer func() {
+		if dirty || len(rd.Errs) > 0 || pool == nil {
+			pool.drop(ty, env)
+			return
+		}
+		ty.cleanup(s)
+	}()
 	if rd.Panic != "" {
-		run.Violation(pre+"diff-panic", desc()+": the diff panicked: "+rd.Panic, out())
+		viol("diff-panic", "the diff panicked: "+rd.Panic)
 		return
 	}
 	for _, id := range append(append([]string{}, rd.Deletes...), rd.Upserts...) {
 		if id == "" {
-			run.Violation(pre+"empty-id-in-result", desc()+": an unmigrated (empty id) item is scheduled for a write", out())
+			viol("empty-id-in-result", "an unmigrated (empty id) item is scheduled for a write")
 		}
 	}
 	for i, e := range rd.Errs {
-		run.Violation(pre+"apply-rejected:"+rd.ErrOps[i], desc()+": the secondary's FSM rejected a request of the round: "+e, out())
+		viol("apply-rejected:"+rd.ErrOps[i], "the secondary's FSM rejected a request of the round: "+e)
 	}
-	if equalBefore && len(rd.Deletes)+len(rd.Upserts) > 0 {
+	if equalBefore && rd.Applied > 0 {
 		k := "upsert"
-		if len(rd.Deletes) > 0 {
+		if rd.AppliedDel > 0 {
 			k = "delete"
 		}
-		run.Violation(pre+"write-when-equal:"+k, desc()+": the secondary already equalled the primary but writes were computed", out())
+		viol("write-when-equal:"+k, fmt.Sprintf("the secondary already equalled the primary but %d write request(s) were submitted", rd.Applied))
 	}
 	if cl, d := zvMapDiff(replAfter, want); cl != "" && len(rd.Errs) == 0 {
-		run.Violation(pre+"replicated-set-differs:"+cl, desc()+": after applying the round "+d, out())
+		viol("replicated-set-differs:"+cl, "after applying the round "+d)
 	}
 	lonlyAfter := ty.localOnly(s)
 	if strings.Join(lonlyBefore, "\n") != strings.Join(lonlyAfter, "\n") {
-		run.Violation(pre+"local-only-touched", desc()+fmt.Sprintf(": local-only objects changed: before %v after %v", lonlyBefore, lonlyAfter), out())
+		viol("local-only-touched", fmt.Sprintf("local-only objects changed: before %v after %v", lonlyBefore, lonlyAfter))
 	}
-	if diffs := dump.Compare(before, after, 3, func(t string) bool { return t == ty.table || t == "index" }); len(diffs) > 0 {
-		run.Violation(pre+"other-table-touched:"+diffs[0].Table, desc()+fmt.Sprintf(": unrelated table %s changed: %q -> %q", diffs[0].Table, diffs[0].A, diffs[0].B), out())
+	if t, d := zvForeignDiff(ty, env.base, after); t != "" {
+		viol("other-table-touched:"+t, d)
 	}
-	if a, b := zvIndexRows(before, ty.indexKeys), zvIndexRows(after, ty.indexKeys); strings.Join(a, "\n") != strings.Join(b, "\n") {
-		run.Violation(pre+"other-table-touched:index", desc()+fmt.Sprintf(": index rows of unrelated tables moved: %v -> %v", a, b), out())
-	}
-	if len(rd.Deletes)+len(rd.Upserts) == 0 && before.Hash() != after.Hash() {
-		run.Violation(pre+"store-changed-without-writes", desc()+": no writes were computed but the store changed", out())
+	if cl, d := zvMapDiff(replAfter, replBefore); rd.Applied == 0 && cl != "" {
+		viol("store-changed-without-writes", "no write was submitted but the replicated table changed: "+d)
 	}
 	return
 }
 
-func zvRunCase(run *core.Run, ty *zvType, c *zvCase) {
+func zvRunCase(run *core.Run, sink *zvSink, pool zvPool, ty *zvType, c *zvCase) {
 	want := ty.expected(c)
-	rd, equal := zvJudge(run, ty, ty.name, c, want, ty.localWant(c),
+	cdesc := fmt.Sprintf("case n=%d local=%v remote=%v lastRemoteIndex=%d shuffled=%v", c.N, c.Local, c.Remote, c.Last, c.Shuffle)
+	rd, equal := zvJudge(sink, c.N, pool, ty, ty.name, c, cdesc, want, ty.localWant(c),
 		func(s *state.Store) { ty.setup(s, c) },
 		func(r *fsmkit.Replica) zvRound { return ty.round(r, c) })
 	run.Eval()
@@ -969,14 +1141,16 @@ func zvRunCase(run *core.Run, ty *zvType, c *zvCase) {
 
 // ---------------- driver ----------------
 
-func zvParallel(workers int, n int64, fn func(i int64)) {
+func zvParallel(workers int, n int64, fn func(pool zvPool, i int64)) {
 	var wg sync.WaitGroup
 	for w := 0; w < workers; w++ {
 		wg.Add(1)
 		go func(w int) {
 			defer wg.Done()
+			pool := zvPool{}
+			defer pool.closeAll()
 			for i := int64(w); i < n; i += int64(workers) {
-				fn(i)
+				fn(pool, i)
 			}
 		}(w)
 	}
@@ -985,7 +1159,7 @@ func zvParallel(workers int, n int64, fn func(i int64)) {
 
 func TestZZVerifC19(t *testing.T) {
 	run := core.NewRun("C19", "exploration",
-		"Part A, per type (tokens, policies, roles, config entries): positions of the enumeration {input order: production|permuted} x {local: per id absent|x|y}^4 x {remote: per id absent|(x|y)x(modify index 1|5|9)}^4 x {lastRemoteIndex 0|4|9} (1 166 886 positions), those inconsistent with history dropped (750 854 remain); thorough: all of them, quick: 20 000 seed-drawn consistent positions per type. Each case: real secondary store holding `local` (+ per-case drawn local-scoped tokens / local exported-services, unmigrated empty-id list items, sentinel rows in unrelated tables), production diff on the production reads, result applied through a real FSM, then replicated set vs primary by (id, hash, full content), local-only rows, all other tables and index rows, and no-write-when-equal. non-trivial = ids overlap and the round wrote something and also left something alone (or both deleted and upserted); distinct by (type, position).")
+		"Part A, per type (tokens, policies, roles, config entries): positions of the enumeration {input order: production|permuted} x {local: per id absent|x|y}^4 x {remote: per id absent|(x|y)x(modify index 1|5|9)}^4 x {lastRemoteIndex 0|4|9} (1 166 886 positions), those inconsistent with history dropped (750 854 remain); thorough: all of them, quick: 20 000 seed-drawn consistent positions per type. Each case: real secondary store holding `local` (+ per-case drawn local-scoped tokens / local exported-services, unmigrated empty-id list items, sentinel rows in unrelated tables), production diff on the production reads, result applied through a real FSM, then replicated set vs primary by (id, hash, full content), local-only rows, all other tables and index rows, and no-write-when-equal. non-trivial = ids overlap and the round wrote something and also left something alone (or both deleted and upserted); distinct by (type, position). Part B (both tiers, exhaustive): the same oracle on content the secondary's store constrains - 64 scenarios of a token re-created in the primary under the same accessor with a new secret; all 34x34 pairs of unique-name assignments over 3 ids x 3 names for policies and for roles; all 13x13 pairs of valid sets over {proxy-defaults http, service-defaults http, service-router, ingress-gateway http listener} x 2 input orders; each also replayed for up to 4 identical rounds to record whether retries converge.")
 	run.Assume(
 		"UpdateLocalBatch/DeleteLocalBatch/reconcileLocalConfig need a raft-backed Server: the monitor builds the same request structs field for field and replays the same batching loops, submitting them to a real fsm.FSM (msgpack encode + production decode)",
 		"FetchRemote/FetchUpdated of tokens and policies are RPCs to the primary: the remote list is built from objects constructed the way the primary's endpoints construct them (SetHash / Normalize+Validate, raft indexes as stored) and FetchUpdated is answered from those objects by id; the role replicator's FetchUpdated and every ensureRemoteConsistent are the production code",
@@ -1010,14 +1184,15 @@ func TestZZVerifC19(t *testing.T) {
 			}
 		}
 	}
+	sink := &zvSink{}
 	for ti, ty := range types {
 		if run.Violations() > 30 {
 			break
 		}
 		if core.Thorough() {
-			zvParallel(workers, zvSpace, func(n int64) {
-				if c, ok := zvDecode(ty.name, n, seed); ok && run.Violations() <= 30 {
-					zvRunCase(run, ty, &c)
+			zvParallel(workers, zvSpace, func(pool zvPool, n int64) {
+				if c, ok := zvDecode(ty.name, n, seed); ok && sink.n() <= 30 {
+					zvRunCase(run, sink, pool, ty, &c)
 				}
 			})
 		} else {
@@ -1028,13 +1203,16 @@ func TestZZVerifC19(t *testing.T) {
 					list = append(list, c)
 				}
 			}
-			zvParallel(workers, int64(len(list)), func(i int64) {
-				if run.Violations() <= 30 {
-					zvRunCase(run, ty, &list[i])
+			zvParallel(workers, int64(len(list)), func(pool zvPool, i int64) {
+				if sink.n() <= 30 {
+					zvRunCase(run, sink, pool, ty, &list[i])
 				}
 			})
 		}
+		sink.flush(run)
 	}
+	zvPartB(run, sink)
+	sink.flush(run)
 	run.Extra("enumeration_space_per_type", zvSpace)
 	run.Extra("exhaustive", core.Thorough())
 
